@@ -321,7 +321,7 @@ pub fn seeds(seed: u64, per: usize) -> Vec<(Dec, Vec<u8>)> {
 const U32_BOUNDARY: [u32; 9] = [0, 1, 2, 255, 256, 65536, 1 << 31, u32::MAX, 0x00ff_ffff];
 
 pub fn run(ctx: &mut Ctx) {
-    ctx.rule = "for every decoder fed by peers or disk: (1) all truncations of valid encodings from the C09 generators, (2) every u32-aligned-or-not 4-byte window in the first 200 bytes and at every embedded transaction header overwritten with boundary values {0,1,2,255,256,2^16,2^24-1,2^31,2^32-1} and real+-1, every byte in the first 100 bytes set to all 256 values, (3) random strings and random mutations (flip, splice, duplicate, truncate+extend) of valid encodings; oracle: outcome is Ok or Err (a panic is a violation keyed by decoder and panic site) and peak allocation <= 64*len + 64 KiB (counting global allocator). non-trivial = input is rejected (not a valid encoding) and >= 1 byte; distinct by (decoder, bytes) digest".into();
+    ctx.rule = "for every decoder fed by peers or disk: (1) all truncations of valid encodings from the C09 generators, (2) every u32-aligned-or-not 4-byte window in the first 200 bytes and at every embedded transaction header overwritten with boundary values {0,1,2,255,256,2^16,2^24-1,2^31,2^32-1} and real+-1, every byte in the first 100 bytes set to all 256 values, (2b) every 32/33/64-byte window in the first 160 bytes filled with all-zero, all-0xff and the secp256k1 group order n, n-1, n+1 (values a curve library refuses), and whole buffers of one byte value at record lengths, (3) random strings and random mutations (flip, splice, duplicate, truncate+extend) of valid encodings; oracle: outcome is Ok or Err (a panic is a violation keyed by decoder and panic site) and peak allocation <= 64*len + 64 KiB (counting global allocator). non-trivial = input is rejected (not a valid encoding) and >= 1 byte; distinct by (decoder, bytes) digest".into();
     ctx.assumptions.push("Allocation is measured with a process-wide counting allocator; checks run single-threaded.".into());
     ctx.assumptions.push("Allocation requests of a gigabyte or more are served by the harness allocator from an unreserved mapping, so that a terabyte request caused by a hostile length field is measured instead of aborting the process; as a second net the whole enumeration is replayed once in a forked child that only calls the decoders, and an input that kills that child is reported as a violation and not decoded in the main process.".into());
     // a second net behind the allocator's handling of giant requests: one screening pass in a child
@@ -393,6 +393,59 @@ fn run_inputs(ctx: &mut Ctx) {
         }
         if sampled.insert(*d) {
             ctx.samples.push(json!({"decoder": d, "valid_encoding_len": enc.len(), "valid_prefix_hex": hex::encode(&enc[..enc.len().min(48)]), "derived": "all truncations, u32/byte overwrites, mutations"}));
+        }
+    }
+
+    // (2b) windows the size of a key, hash or signature (32, 33, 64 bytes) filled with the values a
+    // curve library refuses: all zero, all 0xff, the group order of secp256k1 and its neighbours; and whole
+    // buffers of one byte value at the lengths of records (what a crash during a save leaves on disk)
+    const ORDER: [u8; 32] = [
+        0xff, 0xff, 0xff, 0xff, 0xff, 0xff, 0xff, 0xff, 0xff, 0xff, 0xff, 0xff, 0xff, 0xff, 0xff, 0xfe, 0xba, 0xae, 0xdc, 0xe6, 0xaf, 0x48, 0xa0, 0x3b, 0xbf, 0xd2, 0x5e, 0x8c, 0xd0, 0x36,
+        0x41, 0x41,
+    ];
+    let fill = |w: usize, kind: u8| -> Vec<u8> {
+        match kind {
+            0 => vec![0u8; w],
+            1 => vec![0xffu8; w],
+            k => {
+                let mut o = ORDER;
+                if k == 3 {
+                    o[31] = 0x40;
+                }
+                if k == 4 {
+                    o[31] = 0x42;
+                }
+                let mut v = Vec::with_capacity(w);
+                if w == 33 {
+                    v.push(2);
+                }
+                while v.len() < w {
+                    let take = (w - v.len()).min(32);
+                    v.extend_from_slice(&o[..take]);
+                }
+                v
+            }
+        }
+    };
+    for (d, enc) in &seeds {
+        for o in 0..enc.len().min(ctx.tier.pick(160usize, 400)) {
+            for w in [32usize, 33, 64] {
+                if o + w > enc.len() {
+                    continue;
+                }
+                for kind in 0..5u8 {
+                    let mut m = enc.clone();
+                    m[o..o + w].copy_from_slice(&fill(w, kind));
+                    check_one(ctx, *d, &m, "crypto_field_fill");
+                }
+            }
+        }
+    }
+    for d in ALL {
+        for len in [1usize, 4, 8, 32, 33, 64, 65, 66, 97, 98, 130, 213, 214, 300, 4096] {
+            for val in [0u8, 0xff, 0x01, 0x80] {
+                check_one(ctx, d, &vec![val; len], "uniform_buffer");
+            }
         }
     }
 
